@@ -571,7 +571,8 @@ is_default_constructible(CPPVisibility min_vis) const {
   for (di = _derivation.begin(); di != _derivation.end(); ++di) {
     CPPStructType *base = (*di)._base->as_struct_type();
     if (base != nullptr) {
-      if (!base->is_default_constructible(V_protected)) {
+      if (!base->is_default_constructible(V_protected) ||
+          !base->is_destructible(V_protected)) {
         return false;
       }
     }
@@ -611,7 +612,10 @@ is_default_constructible(CPPVisibility min_vis) const {
       }
     }
 
-    if (!instance->_type->is_default_constructible()) {
+    if (!instance->_type->is_default_constructible() ||
+        !instance->_type->is_destructible()) {
+      // The implicit constructor is deleted if a member cannot be constructed
+      // or destroyed again.
       return false;
     }
   }
@@ -676,7 +680,8 @@ is_copy_constructible(CPPVisibility min_vis) const {
   for (di = _derivation.begin(); di != _derivation.end(); ++di) {
     CPPStructType *base = (*di)._base->as_struct_type();
     if (base != nullptr) {
-      if (!base->is_copy_constructible(V_protected)) {
+      if (!base->is_copy_constructible(V_protected) ||
+          !base->is_destructible(V_protected)) {
         return false;
       }
     }
@@ -693,7 +698,8 @@ is_copy_constructible(CPPVisibility min_vis) const {
       continue;
     }
 
-    if (!instance->_type->is_copy_constructible()) {
+    if (!instance->_type->is_copy_constructible() ||
+        !instance->_type->is_destructible()) {
       return false;
     }
   }
